@@ -129,7 +129,19 @@ def run_ref(cfg, hist):
     return out, r
 
 
+class _Suffixed:
+    """Signatures of histories whose counter has passed 2^31 carry a suffix, so that what happens out there (32-bit fields in
+    snapshot formats) is never filed under, nor hides, a finding about ordinary cycle counts."""
+    def __init__(self, vb: VB, suffix: str) -> None:
+        self.vb, self.suffix = vb, suffix
+
+    def add(self, sig, what, wit):
+        self.vb.add(sig + self.suffix, what, wit)
+
+
 def judge(cfg, hist, py, rs, vb: VB):
+    if any(e[0] == "tick" and e[1] >= 2 ** 31 for e in hist):
+        vb = _Suffixed(vb, "/counter-beyond-2^31")       # type: ignore[assignment]
     ref, r = run_ref(cfg, hist)
     wit = lambda: {"cfg": list(cfg), "history": [list(e) for e in hist]}  # noqa: E731
     tag = f"mti={cfg[0]}/sti={cfg[1]}/en={int(cfg[2])}" if max(cfg[0], cfg[1]) <= 7 else "default-periods"
@@ -223,6 +235,11 @@ def _after_identity(args):
             for ev in ("snap", "snap1", "mreset"):
                 for post in itertools.product(gs, repeat=2):
                     hists.append(tuple(("tick", g) for g in pre) + ((ev,),) + tuple(("tick", g) for g in post))
+    # the same after one gap that takes the counter past 2^31 ("arbitrary gaps": about a quarter of an hour of emulated time)
+    # (only for periods of at least 1024 cycles: the Python scheduler catches up one period at a time)
+    for ev in (("snap", "snap1") if cfg[2] and min([p for p in cfg[:2] if p] or [0]) >= 1024 else ()):
+        for post in itertools.product(gs, repeat=2):
+            hists.append((("tick", 2 ** 31 + 7), ("tick", 1)) + (((ev,),) if ev else ()) + tuple(("tick", g) for g in post) + (("tick", 1),))
     outs = h.batch([rs_req(cfg, x) for x in hists])
     for hist, o in zip(hists, outs):
         judge(cfg, hist, run_py(cfg, hist), o, vb)
@@ -288,7 +305,7 @@ def run(ctx) -> None:
         gaps = sorted({1, 2, 3, 5, 8, 2 * p, 3 * p + 1})
         jobs.append((cfg, gaps, ["reset", "snap", "snap1", "clr", "mreset"], 14 if ctx.thorough else 9))
     clo = pmap(_closure, jobs)
-    aft = pmap(_after_identity, [(cfg,) for cfg in cfgs])
+    aft = pmap(_after_identity, [(cfg,) for cfg in cfgs + [(2048, 512000, True), (4096, 1024, True)]])
     for r in aft:
         ctx.merge_bucket(r["vb"])
     ctx.coverage["histories_continued_after_snapshot_or_reset"] = sum(r["n"] for r in aft)
